@@ -55,6 +55,14 @@ def state_str(o):
     return f"trials[{sts}] ongoing[{ong}] retry[{','.join(o._retry_queue)}] end[{','.join(o.end_order)}] tuners[{','.join(sorted(o.tuner_ids))}]"
 
 
+def metrics_doc(t):
+    """per metric: direction and the (step, values) history, floats canonical"""
+    out = {}
+    for name, h in sorted(t.metrics.metrics.items()):
+        out[name] = (h.direction, [(ob.step, [fl_str(v) for v in ob.value]) for ob in h.get_history()])
+    return out
+
+
 def has_streak(sts, k):
     return any(all(s == "FAILED" for s in sts[i:i + k]) for i in range(len(sts) - k + 1))
 
@@ -394,6 +402,9 @@ def scenario(sseed, kind, mode, res, crash_at=None, second=None, maxlen=60):
                             raise Violation("C07", f"trial {tid} lost by save/reload")
                         if canon_vals(t2.hyperparameters.values) != canon_vals(t.hyperparameters.values):
                             raise Violation("C07", f"trial {tid} values changed by save/reload")
+                        m1, m2 = metrics_doc(t), metrics_doc(t2)
+                        if m1 != m2:
+                            raise Violation("C07", f"trial {tid}: metrics (histories / directions) changed by save/reload: {m1} -> {m2}", {"tag": "metrics-reload"})
                         if tid not in queued_before and (t2.status, fl_str(t2.score)) != (t.status, fl_str(t.score)):
                             raise Violation("C07", f"trial {tid} status/score changed by save/reload: {(t.status, t.score)} -> {(t2.status, t2.score)}")
                     if (o.start_order, o.end_order, o._retry_queue, dict(o._run_times)) != (old.start_order, old.end_order, exp_rq, dict(old._run_times)):
@@ -437,7 +448,19 @@ def scenario(sseed, kind, mode, res, crash_at=None, second=None, maxlen=60):
                     continue
                 w = R.choice(tun)
                 try:
-                    if w in hold and R.random() < 0.7:
+                    if w in hold and R.random() < 0.2:
+                        # an intermediate report: the trial stays in flight with metrics on record (what a save / crash finds)
+                        t = hold[w]
+                        val = float(R.choice([0, 1, 2, -1, 3, 0.5, 2.5]))
+                        step = R.choice([0, 0, 1, 2])
+                        lines.append(dict(suite="oracle", op="update", id=int(t.trial_id), step=step, value=fl(val)))
+                        quiet(o.update_trial, t.trial_id, {"score": val}, step=step)
+                        expect.append("ok")
+                        mon.last_run_vals.setdefault(t.trial_id, {}).setdefault(step, []).append(val)
+                        if twin is not None:
+                            quiet(twin.update_trial, t.trial_id, {"score": val}, step=step)
+                        tags["report-in-flight"] += 1
+                    elif w in hold and R.random() < 0.7:
                         t = hold.pop(w)
                         oc = R.choice(["C", "C", "C", "NAN", "INV", "FAIL"])
                         if oc in ("C", "NAN"):
@@ -517,7 +540,7 @@ def scenario(sseed, kind, mode, res, crash_at=None, second=None, maxlen=60):
                             # the other tuners still hold trials: the finished trials go on containing the streak, so every
                             # further end that records a final outcome must be refused with the same error (monitor only:
                             # the model treats the abort as terminal)
-                            for w2 in sorted(hold):
+                            for w2 in (sorted(hold) if gate.budget is None else []):     # not while a crash is armed: the model ends here
                                 t2 = hold[w2]
                                 oc2 = R.choice(["C", "FAIL", "INV"])
                                 if oc2 == "C":
